@@ -38,11 +38,7 @@ let parse_farm toks : Gauge.farm_env = match toks with
                       L.map (function [_; _; c] -> zs c | _ -> failwith "master") gs)
   | _ -> failwith "farm line"
 
-(* (account, eligible value) of a farm environment and the total *)
-let eligible (e : Gauge.farm_env) : (BinNums.coq_Z * BinNums.coq_Z) list = match e with
-  | Gauge.FarmErr -> []
-  | Gauge.FarmPlain fs -> fs
-  | Gauge.FarmMaster (fs, child) -> L.combine (L.map fst fs) (Gauge.min_supplies (L.map snd fs) child)
+let eligible = Gauge.eligible
 
 let show_pays (l : (BinNums.coq_Z * BinNums.coq_Z) list) = S.concat "," (L.map (fun (a, r) -> sz a ^ ":" ^ sz r) l)
 
